@@ -208,28 +208,30 @@ Qed.
 Lemma select_page_indep : forall v q lo n k g, select v q (with_page lo n k) g = select v q lo g.
 Proof. intros. reflexivity. Qed.
 
-Theorem page_of_unpaged : forall q lo g l (n : Z) (k : nat), (0 < n)%Z ->
-  (n * Z.of_nat k < 9223372036854775808)%Z ->
+Theorem page_of_unpaged : forall q lo g l (n : Z) (k : nat),
+  (0 < n < 9223372036854775808)%Z -> (Z.of_nat k < 9223372036854775808)%Z ->
+  (Z.of_nat (length l) < 9223372036854775808)%Z ->
   lookup q (unpaged lo) g = LOk l ->
   lookup q (with_page lo n (Z.of_nat k)) g = LOk (firstn (Z.to_nat n) (skipn (Z.to_nat n * k) l)).
 Proof.
-  intros q lo g l n k Hn Hb. unfold lookup, lookup_v.
+  intros q lo g l n k Hn Hk Hlen. unfold lookup, lookup_v.
   change (select current q (unpaged lo) g) with (select current q lo g).
   change (select current q (with_page lo n (Z.of_nat k)) g) with (select current q lo g).
   destruct (select current q lo g) as [s|e]; [|discriminate].
-  intros E. inversion E. subst l. f_equal. rewrite page_unpaged.
+  intros E. inversion E. subst l. f_equal. rewrite map_length, page_unpaged in Hlen. rewrite page_unpaged.
   rewrite page_block by assumption. rewrite skipn_map, firstn_map. reflexivity.
 Qed.
 
-Theorem pages_partition : forall q lo g l (n : Z) (K : nat), (0 < n)%Z ->
-  (n * Z.of_nat K < 9223372036854775808)%Z ->
+Theorem pages_partition : forall q lo g l (n : Z) (K : nat),
+  (0 < n < 9223372036854775808)%Z -> (Z.of_nat K < 9223372036854775808)%Z ->
+  (Z.of_nat (length l) < 9223372036854775808)%Z ->
   lookup q (unpaged lo) g = LOk l -> (length l <= Z.to_nat n * K)%nat ->
   concat (map (fun k => results (lookup q (with_page lo n (Z.of_nat k)) g)) (seq 0 K)) = l.
 Proof.
-  intros q lo g l n K Hn Hb Hl Hlen.
+  intros q lo g l n K Hn HK Hlen Hl Hcov.
   rewrite (map_ext_in _ (fun k => firstn (Z.to_nat n) (skipn (Z.to_nat n * k) l))).
   - now apply blocks_cover.
-  - intros k Hk. apply in_seq in Hk. rewrite (page_of_unpaged q lo g l n k Hn); auto. nia.
+  - intros k Hk. apply in_seq in Hk. rewrite (page_of_unpaged q lo g l n k Hn); auto. lia.
 Qed.
 
 Theorem paged_error_iff : forall q lo g n k e,
